@@ -306,6 +306,32 @@ func runC15(t *Trace, r *Rng, tier string, _ []string) {
 					it := rd.r.PrefixIterator(p)
 					iters = append(iters, itr{it, nextID, rd.id, new(bool)})
 					t.Emit(sn+"/piter", true, fmt.Sprintf("piter %d %d %s", rd.id, nextID, hx(p)), fmtCur(it))
+					// hot pattern: a prefix iterator is sought straight past the end of its prefix (and then
+					// used again): adapters compute "prefix + 1" with a carry over 0xff bytes to get there
+					if rr.Chance(45) && (sn != "moss" || it.Valid()) {
+						var k []byte
+						switch rr.Intn(3) {
+						case 0: // the smallest key after the prefix range
+							k = append([]byte(nil), p...)
+							for len(k) > 0 && k[len(k)-1] == 0xff {
+								k = k[:len(k)-1]
+							}
+							if len(k) > 0 {
+								k[len(k)-1]++
+							} else {
+								k = []byte{0xff, 0xff, 0xff, 0xff, 0xff}
+							}
+						case 1:
+							k = append(append([]byte(nil), p...), 0xff, 0xff, 0xff, 0xff)
+							if len(p) > 0 && p[len(p)-1] != 0xff {
+								k = append(append([]byte(nil), p[:len(p)-1]...), p[len(p)-1]+1, 'a')
+							}
+						default:
+							k = []byte{0xff, 0xff, 0xff, 0xff, 0xff}
+						}
+						it.Seek(k)
+						t.Emit(sn+"/piter-seek-past", true, fmt.Sprintf("seek %d %s", nextID, hx(k)), fmtCur(it))
+					}
 					nextID++
 				case c < 85 && len(readers) > 0: // range iterator
 					rd := readers[rr.Intn(len(readers))]
